@@ -1987,9 +1987,9 @@ let base_add_variable pycast arrcast infer astype_dt name value dt s =
              | Ret a ->
                let (p, cells) = a in
                let (d, sh) = p in
-               let a0 = ((d, ((prod_shape sh) :: [])), cells) in
+               let a0 = ((d, (prod_shape sh)), cells) in
                let (p0, cells0) = a0 in
-               let (d0, sh0) = p0 in
+               let (d0, m0) = p0 in
                (match match dt with
                       | Some r ->
                         let d1 = astype_dt d0 cells0 r in
@@ -1999,12 +1999,12 @@ let base_add_variable pycast arrcast infer astype_dt name value dt s =
                       | None -> Ret (d0, cells0) with
                 | Ret a1 ->
                   let (d1, cells1) = a1 in
-                  if negb (Nat.eqb (hd O sh0) n0)
+                  if negb (Nat.eqb m0 n0)
                   then err s DimensionError
                   else ok
                          (set_index_vars s (app s.index (name :: []))
-                           (assoc_set name { vdtype = d1; vshape = sh0;
-                             vdata = cells1 } s.vars))
+                           (assoc_set name { vdtype = d1; vshape =
+                             (m0 :: []); vdata = cells1 } s.vars))
                 | Raise e -> err s e)
              | Raise e -> err s e)
        else (match natural pycast infer value with
@@ -2013,9 +2013,9 @@ let base_add_variable pycast arrcast infer astype_dt name value dt s =
                let (d, sh) = p in
                (match bcast_arr n0 sh cells with
                 | Some cs ->
-                  let a0 = ((d, (n0 :: [])), cs) in
+                  let a0 = ((d, n0), cs) in
                   let (p0, cells0) = a0 in
-                  let (d0, sh0) = p0 in
+                  let (d0, m0) = p0 in
                   (match match dt with
                          | Some r ->
                            let d1 = astype_dt d0 cells0 r in
@@ -2025,12 +2025,12 @@ let base_add_variable pycast arrcast infer astype_dt name value dt s =
                          | None -> Ret (d0, cells0) with
                    | Ret a1 ->
                      let (d1, cells1) = a1 in
-                     if negb (Nat.eqb (hd O sh0) n0)
+                     if negb (Nat.eqb m0 n0)
                      then err s DimensionError
                      else ok
                             (set_index_vars s (app s.index (name :: []))
-                              (assoc_set name { vdtype = d1; vshape = sh0;
-                                vdata = cells1 } s.vars))
+                              (assoc_set name { vdtype = d1; vshape =
+                                (m0 :: []); vdata = cells1 } s.vars))
                    | Raise e -> err s e)
                 | None -> let e = ValueError in err s e)
              | Raise e -> err s e)
